@@ -105,6 +105,9 @@ func (p *profile) Canonicalize(u *url.Url) (*url.Url, error) {
 		}
 		if u.Hash() != "" {
 			u.SetHash(decodeEncode(strings.TrimPrefix(u.Hash(), "#"), url.HostPercentEncodeSet))
+		} else {
+			// an empty fragment (a bare "#") is dropped: it canonicalizes like no fragment at all
+			u.SetHash("")
 		}
 	}
 
